@@ -189,13 +189,13 @@ Qed.
 Record mc_facts (s : store) (tip : N) (t g : row) : Prop := {
   mf_inv : Inv s tip;
   mf_tipB : tipB s = Some t;
-  mf_mc : main_chain s = rev (chain s tip);
-  mf_L : filter isL (orev s) = main_chain s;
-  mf_asc : asc_from 0 (main_chain s);
-  mf_linked : linked (main_chain s);
-  mf_len : Z.of_nat (length (main_chain s)) = height t + 1;
-  mf_tip : nth_error (main_chain s) (Z.to_nat (height t)) = Some t;
-  mf_gen : nth_error (main_chain s) 0 = Some g;
+  mf_mc : mc = rev (chain s tip);
+  mf_L : filter isL (orev s) = mc;
+  mf_asc : asc_from 0 (mc);
+  mf_linked : linked (mc);
+  mf_len : Z.of_nat (length (mc)) = height t + 1;
+  mf_tip : nth_error (mc) (Z.to_nat (height t)) = Some t;
+  mf_gen : nth_error (mc) 0 = Some g;
   mf_gid : id g = genesis_id s
 }.
 
@@ -213,7 +213,7 @@ Proof.
   - destruct Hr as [<-|Hr]; [exact Hz| apply IH; exact Hr].
 Qed.
 
-Lemma valid_mc s : Valid s -> exists tip t g, mc_facts s tip t g.
+Lemma valid_mc s : Valid s -> exists tip t g, mc_facts s mc tip t g.
 Proof.
   intros (tip & HI2). pose proof (spec_tip_inv2 s tip HI2) as Hst. destruct HI2 as [HI Hb].
   pose proof HI as (Hwf & (t & Ht & Ho) & Hl).
@@ -223,7 +223,7 @@ Proof.
   destruct (wf_last s Hwf) as (pre & g & Es & Hg).
   destruct (chain_connected_nonempty_last s Hwf tip t rest Hc Ho) as (g' & Hg1 & _ & Hg2).
   assert (Eg: g' = g). { rewrite <- Hg2, Es. apply last_last. } rewrite Eg in Hg1. clear Hg2.
-  assert (Hmc: main_chain s = rev (chain s tip)). { unfold main_chain. rewrite Hst. apply orev_rev. }
+  assert (Hmc: mc = rev (chain s tip)). { unfold main_chain. rewrite Hst. apply orev_rev. }
   exists tip, t, g. constructor.
   - exact HI.
   - rewrite (tipB_is_tip s tip HI). exact Ht.
@@ -241,15 +241,15 @@ Proof.
   - unfold genesis_id. rewrite orev_rev, Es, rev_app_distr. reflexivity.
 Qed.
 
-Lemma mc_in s tip t g : mc_facts s tip t g -> forall r, In r (main_chain s) <-> In r s /\ st r = Longest.
+Lemma mc_in s mc tip t g : mc_facts s mc tip t g -> forall r, In r (mc) <-> In r s /\ st r = Longest.
 Proof.
-  intros F r. rewrite <- (mf_L _ _ _ _ F), filter_In, orev_rev, <- in_rev, isL_iff. tauto.
+  intros F r. rewrite <- (mf_L _ _ _ _ _ F), filter_In, orev_rev, <- in_rev, isL_iff. tauto.
 Qed.
 
-Lemma mc_height_pos s tip t g : mc_facts s tip t g -> 0 <= height t.
+Lemma mc_height_pos s mc tip t g : mc_facts s mc tip t g -> 0 <= height t.
 Proof.
-  intros F. pose proof (mf_len _ _ _ _ F) as Hlen.
-  assert (Hlt: (Z.to_nat (height t) < length (main_chain s))%nat) by (apply nth_error_Some; rewrite (mf_tip _ _ _ _ F); discriminate).
+  intros F. pose proof (mf_len _ _ _ _ _ F) as Hlen.
+  assert (Hlt: (Z.to_nat (height t) < length (mc))%nat) by (apply nth_error_Some; rewrite (mf_tip _ _ _ _ _ F); discriminate).
   lia.
 Qed.
 
@@ -259,30 +259,30 @@ Proof.
   rewrite (asc_nth _ _ H n x Hn). replace (Z.to_nat (h0 + Z.of_nat n - h0)) with n by lia. exact Hn.
 Qed.
 
-Lemma mc_nth_bounds s tip t g : mc_facts s tip t g -> forall x, In x (main_chain s) -> 0 <= height x <= height t.
+Lemma mc_nth_bounds s mc tip t g : mc_facts s mc tip t g -> forall x, In x (mc) -> 0 <= height x <= height t.
 Proof.
-  intros F x Hx. pose proof (asc_in_nth _ _ (mf_asc _ _ _ _ F) x Hx) as Hn.
-  pose proof (asc_ge _ _ (mf_asc _ _ _ _ F) x Hx) as H0.
-  assert (Hlt: (Z.to_nat (height x - 0) < length (main_chain s))%nat) by (apply nth_error_Some; congruence).
-  pose proof (mf_len _ _ _ _ F). lia.
+  intros F x Hx. pose proof (asc_in_nth _ _ (mf_asc _ _ _ _ _ F) x Hx) as Hn.
+  pose proof (asc_ge _ _ (mf_asc _ _ _ _ _ F) x Hx) as H0.
+  assert (Hlt: (Z.to_nat (height x - 0) < length (mc))%nat) by (apply nth_error_Some; congruence).
+  pose proof (mf_len _ _ _ _ _ F). lia.
 Qed.
 
 (* by-height lookup among LONGEST_CHAIN rows = position in the main chain *)
-Lemma by_height_L_nth s tip t g : mc_facts s tip t g -> forall h, 0 <= h ->
-  by_height_L s h = nth_error (main_chain s) (Z.to_nat h).
+Lemma by_height_L_nth s mc tip t g : mc_facts s mc tip t g -> forall h, 0 <= h ->
+  by_height_L s h = nth_error (mc) (Z.to_nat h).
 Proof.
-  intros F h Hh. unfold by_height_L. rewrite find_andb, (mf_L _ _ _ _ F).
-  rewrite (asc_find 0 _ (mf_asc _ _ _ _ F) h Hh). rewrite Z.sub_0_r. reflexivity.
+  intros F h Hh. unfold by_height_L. rewrite find_andb, (mf_L _ _ _ _ _ F).
+  rewrite (asc_find 0 _ (mf_asc _ _ _ _ _ F) h Hh). rewrite Z.sub_0_r. reflexivity.
 Qed.
 
-Lemma mc_nth_some s tip t g : mc_facts s tip t g -> forall h, 0 <= h <= height t ->
-  exists r, nth_error (main_chain s) (Z.to_nat h) = Some r /\ height r = h /\ In r s /\ st r = Longest /\ at_height s h = id r.
+Lemma mc_nth_some s mc tip t g : mc_facts s mc tip t g -> forall h, 0 <= h <= height t ->
+  exists r, nth_error (mc) (Z.to_nat h) = Some r /\ height r = h /\ In r s /\ st r = Longest /\ at_height_mc mc h = id r.
 Proof.
-  intros F h Hh. pose proof (mf_len _ _ _ _ F) as Hlen.
-  destruct (nth_error (main_chain s) (Z.to_nat h)) as [r|] eqn:E.
-  - exists r. split; [reflexivity|]. pose proof (asc_nth _ _ (mf_asc _ _ _ _ F) _ _ E) as Hr.
-    apply nth_error_In in E as Hin. apply (mc_in _ _ _ _ F) in Hin. destruct Hin as [Hin HL].
-    unfold at_height. rewrite E. repeat split; auto. lia.
+  intros F h Hh. pose proof (mf_len _ _ _ _ _ F) as Hlen.
+  destruct (nth_error (mc) (Z.to_nat h)) as [r|] eqn:E.
+  - exists r. split; [reflexivity|]. pose proof (asc_nth _ _ (mf_asc _ _ _ _ _ F) _ _ E) as Hr.
+    apply nth_error_In in E as Hin. apply (mc_in _ _ _ _ _ F) in Hin. destruct Hin as [Hin HL].
+    unfold at_height_mc. rewrite E. repeat split; auto. lia.
   - apply nth_error_None in E. lia.
 Qed.
 
@@ -307,14 +307,14 @@ Proof. intros H. unfold gap. destruct (Z.leb_spec (Z.of_nat i) 10); [reflexivity
 Lemma gap_double i : (10 <= i)%nat -> gap (S i) = 2 * gap i.
 Proof. intros H. rewrite <- gap_step. destruct (Z.ltb_spec 10 (Z.of_nat (S i))); lia. Qed.
 
-Lemma loop_spec s tip t g : mc_facts s tip t g -> forall f i hs cur,
-  hs <= height t -> nth_error (main_chain s) (Z.to_nat (Z.max 0 hs)) = Some cur ->
+Lemma loop_spec s mc tip t g : mc_facts s mc tip t g -> forall f i hs cur,
+  hs <= height t -> nth_error (mc) (Z.to_nat (Z.max 0 hs)) = Some cur ->
   (Z.to_nat (Z.max 0 hs) < f)%nat ->
-  loc_loop f s cur (gap i) i = Some (map (at_height s) (spec_heights f i hs)).
+  loc_loop f s cur (gap i) i = Some (map (at_height_mc mc) (spec_heights f i hs)).
 Proof.
   intros F f. induction f as [|f IH]; intros i hs cur Hle Hn Hf; [lia|].
-  pose proof (asc_nth _ _ (mf_asc _ _ _ _ F) _ _ Hn) as Hh.
-  assert (Hid: at_height s (Z.max 0 hs) = id cur) by (unfold at_height; rewrite Hn; reflexivity).
+  pose proof (asc_nth _ _ (mf_asc _ _ _ _ _ F) _ _ Hn) as Hh.
+  assert (Hid: at_height_mc mc (Z.max 0 hs) = id cur) by (unfold at_height_mc; rewrite Hn; reflexivity).
   cbn [loc_loop spec_heights]. destruct (Z.leb_spec hs 0) as [H0|H0].
   - replace (height cur =? 0) with true by (symmetry; apply Z.eqb_eq; lia).
     cbn. replace (Z.max 0 hs) with 0 in Hid by lia. rewrite Hid. reflexivity.
@@ -323,21 +323,21 @@ Proof.
     replace (if height cur - gap i <? 0 then 0 else height cur - gap i) with (Z.max 0 (hs - gap i))
       by (destruct (Z.ltb_spec (height cur - gap i) 0); lia).
     pose proof (gap_pos i) as Hg.
-    destruct (mc_nth_some _ _ _ _ F (Z.max 0 (hs - gap i)) ltac:(lia)) as (v & Hv & _).
-    rewrite (by_height_L_nth _ _ _ _ F (Z.max 0 (hs - gap i)) ltac:(lia)), Hv, gap_step.
+    destruct (mc_nth_some _ _ _ _ _ F (Z.max 0 (hs - gap i)) ltac:(lia)) as (v & Hv & _).
+    rewrite (by_height_L_nth _ _ _ _ _ F (Z.max 0 (hs - gap i)) ltac:(lia)), Hv, gap_step.
     rewrite (IH (S i) (hs - gap i) v ltac:(lia) Hv ltac:(lia)). cbn. rewrite Hid. reflexivity.
 Qed.
 
-Theorem latest_locator_spec s : Valid s -> latest_locator s = Some (spec_locator s).
+Theorem latest_locator_spec s : Valid s -> latest_locator s = Some (spec_locator_mc mc).
 Proof.
   intros HV. destruct (valid_mc s HV) as (tip & t & g & F).
-  pose proof (mc_height_pos _ _ _ _ F) as Hp. pose proof (mf_len _ _ _ _ F) as Hlen.
-  unfold latest_locator, spec_locator, tip_height. rewrite (mf_tipB _ _ _ _ F).
-  replace (S (Z.to_nat (height t))) with (length (main_chain s)) by lia.
-  replace (Z.of_nat (length (main_chain s)) - 1) with (height t) by lia.
+  pose proof (mc_height_pos _ _ _ _ _ F) as Hp. pose proof (mf_len _ _ _ _ _ F) as Hlen.
+  unfold latest_locator, spec_locator, tip_height. rewrite (mf_tipB _ _ _ _ _ F).
+  replace (S (Z.to_nat (height t))) with (length (mc)) by lia.
+  replace (Z.of_nat (length (mc)) - 1) with (height t) by lia.
   change 1 with (gap Datatypes.O).
-  apply (loop_spec _ _ _ _ F); [lia| | lia].
-  replace (Z.max 0 (height t)) with (height t) by lia. exact (mf_tip _ _ _ _ F).
+  apply (loop_spec _ _ _ _ _ F); [lia| | lia].
+  replace (Z.max 0 (height t)) with (height t) by lia. exact (mf_tip _ _ _ _ _ F).
 Qed.
 
 (* ---- the shape of the height list ---- *)
@@ -395,33 +395,33 @@ Proof. induction l as [|a l IH]; [reflexivity|]. destruct l as [|b l]; [reflexiv
 Theorem locator_shape_thm s : Valid s ->
   exists t hs,
     tipB s = Some t /\
-    latest_locator s = Some (map (at_height s) hs) /\                                  (* fuel suffices *)
-    hd 0%N (map (at_height s) hs) = id t /\ hd 0 hs = height t /\                       (* head = tip *)
-    last (map (at_height s) hs) 0%N = genesis_id s /\ last hs 0 = 0 /\                   (* last = genesis *)
+    latest_locator s = Some (map (at_height_mc mc) hs) /\                                  (* fuel suffices *)
+    hd 0%N (map (at_height_mc mc) hs) = id t /\ hd 0 hs = height t /\                       (* head = tip *)
+    last (map (at_height_mc mc) hs) 0%N = genesis_id s /\ last hs 0 = 0 /\                   (* last = genesis *)
     shape Datatypes.O hs /\                                                             (* gaps 1 (x11), 2, 4, 8, .. clamped at 0 *)
     (forall pre a b post, hs = pre ++ a :: b :: post -> b < a) /\                        (* strictly descending *)
-    (forall h, In h hs -> exists r, In r s /\ st r = Longest /\ height r = h /\ id r = at_height s h).
+    (forall h, In h hs -> exists r, In r s /\ st r = Longest /\ height r = h /\ id r = at_height_mc mc h).
 Proof.
   intros HV. destruct (valid_mc s HV) as (tip & t & g & F).
-  pose proof (mc_height_pos _ _ _ _ F) as Hp. pose proof (mf_len _ _ _ _ F) as Hlen.
-  set (hs := spec_heights (length (main_chain s)) Datatypes.O (tip_height s)).
-  assert (Hth: tip_height s = height t) by (unfold tip_height; lia).
-  destruct (spec_heights_shape (length (main_chain s)) Datatypes.O (tip_height s) ltac:(lia)) as [Hs Hh].
+  pose proof (mc_height_pos _ _ _ _ _ F) as Hp. pose proof (mf_len _ _ _ _ _ F) as Hlen.
+  set (hs := spec_heights (length (mc)) Datatypes.O ((Z.of_nat (length mc) - 1))).
+  assert (Hth: (Z.of_nat (length mc) - 1) = height t) by (unfold tip_height; lia).
+  destruct (spec_heights_shape (length (mc)) Datatypes.O ((Z.of_nat (length mc) - 1)) ltac:(lia)) as [Hs Hh].
   fold hs in Hs, Hh. rewrite Hth in Hh. replace (Z.max 0 (height t)) with (height t) in Hh by lia.
   assert (Hne: hs <> []) by (intro E; rewrite E in Hs; exact Hs).
-  assert (Htip: at_height s (height t) = id t).
-  { unfold at_height. rewrite (mf_tip _ _ _ _ F). reflexivity. }
-  assert (Hgen: at_height s 0 = genesis_id s).
-  { unfold at_height. cbn [Z.to_nat]. rewrite (mf_gen _ _ _ _ F). exact (mf_gid _ _ _ _ F). }
-  exists t, hs. split; [exact (mf_tipB _ _ _ _ F)|]. split; [exact (latest_locator_spec s HV)|].
+  assert (Htip: at_height_mc mc (height t) = id t).
+  { unfold at_height_mc. rewrite (mf_tip _ _ _ _ _ F). reflexivity. }
+  assert (Hgen: at_height_mc mc 0 = genesis_id s).
+  { unfold at_height_mc. cbn [Z.to_nat]. rewrite (mf_gen _ _ _ _ _ F). exact (mf_gid _ _ _ _ _ F). }
+  exists t, hs. split; [exact (mf_tipB _ _ _ _ _ F)|]. split; [exact (latest_locator_spec s HV)|].
   split; [destruct hs as [|h0 hs']; [contradiction| cbn in *; subst h0; exact Htip]|].
   split; [exact Hh|].
   split.
-  { assert (Hne': map (at_height s) hs <> []) by (destruct hs; [contradiction| discriminate]).
-    rewrite (last_indep_nonempty _ 0%N (at_height s 0) Hne'), last_map, (shape_last _ _ Hs). exact Hgen. }
+  { assert (Hne': map (at_height_mc mc) hs <> []) by (destruct hs; [contradiction| discriminate]).
+    rewrite (last_indep_nonempty _ 0%N (at_height_mc mc 0) Hne'), last_map, (shape_last _ _ Hs). exact Hgen. }
   split; [exact (shape_last _ _ Hs)|]. split; [exact Hs|]. split; [exact (shape_desc _ _ Hs)|].
   intros h Hin. pose proof (shape_bounds _ _ Hs h Hin) as Hb. rewrite Hh in Hb.
-  destruct (mc_nth_some _ _ _ _ F h Hb) as (r & _ & Hr & Hin' & HL & Hid). exists r. auto.
+  destruct (mc_nth_some _ _ _ _ _ F h Hb) as (r & _ & Hr & Hin' & HL & Hid). exists r. auto.
 Qed.
 
 (* ---------------------------------------------------------------- start height = anchor *)
@@ -460,17 +460,17 @@ Proof.
     + intros r [<-|Hr]; [exact Ea| apply IH; exact Hr].
 Qed.
 
-Lemma start_is_anchor s tip t g locs : mc_facts s tip t g ->
-  is_anchor (main_chain s) (fun r => memN (id r) locs) (start_height s locs).
+Lemma start_is_anchor s mc tip t g locs : mc_facts s mc tip t g ->
+  is_anchor (mc) (fun r => memN (id r) locs) (start_height s locs).
 Proof.
   intros F. unfold start_height.
   pose proof (fold_max_spec (fun r => isL r && memN (id r) locs) s) as H.
   destruct (fold_right _ None s) as [x|].
   - destruct H as (r & Hr & Hq & Hh & Hm). apply andb_prop in Hq. destruct Hq as [HL Hq]. left.
-    exists r. split; [apply (mc_in _ _ _ _ F); split; [exact Hr| apply isL_iff; exact HL]|].
-    split; [exact Hq|]. split; [exact Hh|]. intros r' Hr' Hq'. apply (mc_in _ _ _ _ F) in Hr'. destruct Hr' as [Hin HL'].
+    exists r. split; [apply (mc_in _ _ _ _ _ F); split; [exact Hr| apply isL_iff; exact HL]|].
+    split; [exact Hq|]. split; [exact Hh|]. intros r' Hr' Hq'. apply (mc_in _ _ _ _ _ F) in Hr'. destruct Hr' as [Hin HL'].
     apply Hm; [exact Hin|]. apply andb_true_intro. split; [apply isL_iff; exact HL'| exact Hq'].
-  - right. split; [reflexivity|]. intros r Hr. apply (mc_in _ _ _ _ F) in Hr. destruct Hr as [Hin HL].
+  - right. split; [reflexivity|]. intros r Hr. apply (mc_in _ _ _ _ _ F) in Hr. destruct Hr as [Hin HL].
     specialize (H r Hin). apply isL_iff in HL. rewrite HL in H. exact H.
 Qed.
 
@@ -491,18 +491,18 @@ Proof.
     + right. split; [exact HA|]. intros r [<-|Hr]; [exact Ex| apply Hn; exact Hr].
 Qed.
 
-Lemma start_eq_anchor s tip t g locs : mc_facts s tip t g -> start_height s locs = anchor s locs.
+Lemma start_eq_anchor s mc tip t g locs : mc_facts s mc tip t g -> start_height s locs = anchor_mc mc locs.
 Proof.
-  intros F. apply (is_anchor_unique (main_chain s) (fun r => memN (id r) locs)); [apply (start_is_anchor _ _ _ _ _ F)|].
-  unfold anchor. exact (fold_left_anchor (fun r => memN (id r) locs) (main_chain s) 0 0 (mf_asc _ _ _ _ F)).
+  intros F. apply (is_anchor_unique (mc) (fun r => memN (id r) locs)); [apply (start_is_anchor _ _ _ _ _ _ F)|].
+  unfold anchor_mc. exact (fold_left_anchor (fun r => memN (id r) locs) (mc) 0 0 (mf_asc _ _ _ _ _ F)).
 Qed.
 
-Lemma anchor_bounds s tip t g locs : mc_facts s tip t g -> 0 <= anchor s locs <= height t.
+Lemma anchor_bounds s mc tip t g locs : mc_facts s mc tip t g -> 0 <= anchor_mc mc locs <= height t.
 Proof.
-  intros F. pose proof (mc_height_pos _ _ _ _ F).
-  destruct (fold_left_anchor (fun r => memN (id r) locs) (main_chain s) 0 0 (mf_asc _ _ _ _ F)) as [(r & Hr & _ & Hh & _)|[HA _]];
-    fold (anchor s locs) in *.
-  - rewrite <- Hh. apply (mc_nth_bounds _ _ _ _ F r Hr).
+  intros F. pose proof (mc_height_pos _ _ _ _ _ F).
+  destruct (fold_left_anchor (fun r => memN (id r) locs) (mc) 0 0 (mf_asc _ _ _ _ _ F)) as [(r & Hr & _ & Hh & _)|[HA _]];
+    fold (anchor_mc mc locs) in *.
+  - rewrite <- Hh. apply (mc_nth_bounds _ _ _ _ _ F r Hr).
   - lia.
 Qed.
 
@@ -510,12 +510,12 @@ Qed.
 Lemma find_ext' {A} (p q : A -> bool) l : (forall x, p x = q x) -> find p l = find q l.
 Proof. intros H. induction l as [|a l IH]; [reflexivity|]. cbn. rewrite H, IH. reflexivity. Qed.
 
-Lemma stop_height_mc s tip t g stop : mc_facts s tip t g ->
-  stop_height s stop = match find (fun r => N.eqb (id r) stop) (main_chain s) with Some x => height x | None => 0 end.
+Lemma stop_height_mc s mc tip t g stop : mc_facts s mc tip t g ->
+  stop_height s stop = match find (fun r => N.eqb (id r) stop) (mc) with Some x => height x | None => 0 end.
 Proof.
   intros F. unfold stop_height.
   rewrite (find_ext' _ (fun r => isL r && N.eqb (id r) stop) _ (fun x => andb_comm _ _)).
-  rewrite find_andb, (mf_L _ _ _ _ F). reflexivity.
+  rewrite find_andb, (mf_L _ _ _ _ _ F). reflexivity.
 Qed.
 
 (* ---------------------------------------------------------------- the range query *)
@@ -540,17 +540,17 @@ Proof.
 Qed.
 
 (* position view of a segment of the main chain: the rows with height lo .. lo+n-1 *)
-Definition seg (s : store) (lo : Z) (n : nat) : list row := firstn n (skipn (Z.to_nat lo) (main_chain s)).
+Definition seg (s : store) (lo : Z) (n : nat) : list row := firstn n (skipn (Z.to_nat lo) (mc)).
 
-Lemma range_L_seg s tip t g lo hi : mc_facts s tip t g -> 0 <= lo ->
-  range_L s lo hi = seg s lo (Z.to_nat (hi - lo + 1)).
+Lemma range_L_seg mc mc tip t g lo hi : mc_facts s mc tip t g -> 0 <= lo ->
+  range_L s lo hi = seg mc lo (Z.to_nat (hi - lo + 1)).
 Proof.
   intros F Hlo. unfold range_L, seg.
-  rewrite (filter_andb isL (fun r => (lo <=? height r) && (height r <=? hi))), (mf_L _ _ _ _ F).
+  rewrite (filter_andb isL (fun r => (lo <=? height r) && (height r <=? hi))), (mf_L _ _ _ _ _ F).
   change (fun r => (lo <=? height r) && (height r <=? hi)) with (in_range lo hi).
-  rewrite (asc_segment _ 0 lo hi (mf_asc _ _ _ _ F)).
+  rewrite (asc_segment _ 0 lo hi (mf_asc _ _ _ _ _ F)).
   replace (Z.max lo 0) with lo by lia. rewrite Z.sub_0_r.
-  apply (sort_asc _ (0 + Z.of_nat (Z.to_nat lo))). apply asc_firstn, asc_skipn. exact (mf_asc _ _ _ _ F).
+  apply (sort_asc _ (0 + Z.of_nat (Z.to_nat lo))). apply asc_firstn, asc_skipn. exact (mf_asc _ _ _ _ _ F).
 Qed.
 
 Lemma asc_above l : forall h0 a, asc_from h0 l ->
@@ -574,20 +574,20 @@ Proof.
 Qed.
 
 (* the specification, position view *)
-Lemma spec_locate_seg s tip t g locs stop : mc_facts s tip t g ->
-  spec_locate s locs stop =
-  let a := anchor s locs in
-  match find (fun r => N.eqb (id r) stop) (main_chain s) with
-  | Some x => if height x <=? a then [] else seg s (a + 1) (Nat.min (Z.to_nat cap) (Z.to_nat (height x - a)))
-  | None => seg s (a + 1) (Z.to_nat cap)
+Lemma spec_locate_seg mc mc tip t g locs stop : mc_facts s mc tip t g ->
+  spec_locate_mc mc locs stop =
+  let a := anchor_mc mc locs in
+  match find (fun r => N.eqb (id r) stop) (mc) with
+  | Some x => if height x <=? a then [] else seg mc (a + 1) (Nat.min (Z.to_nat cap) (Z.to_nat (height x - a)))
+  | None => seg mc (a + 1) (Z.to_nat cap)
   end.
 Proof.
-  intros F. pose proof (anchor_bounds _ _ _ _ locs F) as Ha. unfold spec_locate, seg. cbn zeta.
-  rewrite (asc_above _ 0 (anchor s locs) (mf_asc _ _ _ _ F)). rewrite Z.sub_0_r.
-  destruct (find (fun r => N.eqb (id r) stop) (main_chain s)) as [x|]; [|reflexivity].
-  destruct (height x <=? anchor s locs); [reflexivity|].
-  rewrite (asc_below _ (0 + Z.of_nat (Z.to_nat (anchor s locs + 1))) (height x)
-             (asc_skipn _ 0 _ (mf_asc _ _ _ _ F))).
+  intros F. pose proof (anchor_bounds _ _ _ _ _ locs F) as Ha. unfold spec_locate_mc, seg. cbn zeta.
+  rewrite (asc_above _ 0 (anchor_mc mc locs) (mf_asc _ _ _ _ _ F)). rewrite Z.sub_0_r.
+  destruct (find (fun r => N.eqb (id r) stop) (mc)) as [x|]; [|reflexivity].
+  destruct (height x <=? anchor_mc mc locs); [reflexivity|].
+  rewrite (asc_below _ (0 + Z.of_nat (Z.to_nat (anchor_mc mc locs + 1))) (height x)
+             (asc_skipn _ 0 _ (mf_asc _ _ _ _ _ F))).
   rewrite firstn_firstn. f_equal. lia.
 Qed.
 
@@ -607,49 +607,49 @@ Definition gen_stop (s : store) (stop : N) : bool :=
   match by_height_L s 0 with Some g => N.eqb (id g) stop | None => false end.
 
 (* the model, position view *)
-Lemma locate_seg s tip t g locs stop : mc_facts s tip t g ->
+Lemma locate_seg mc mc tip t g locs stop : mc_facts s mc tip t g ->
   answer (locate s locs stop) =
-  let a := anchor s locs in
+  let a := anchor_mc mc locs in
   let sh0 := if N.eqb stop 0 then a + cap else stop_height s stop in
   if (sh0 =? 0) && gen_stop s stop then [] else
   let sh := if sh0 =? 0 then a + cap else sh0 in
-  if sh <=? a then [] else seg s (a + 1) (Z.to_nat (Z.min (sh - a) cap)).
+  if sh <=? a then [] else seg mc (a + 1) (Z.to_nat (Z.min (sh - a) cap)).
 Proof.
-  intros F. pose proof (anchor_bounds _ _ _ _ locs F) as Ha. pose proof cap_pos as Hc.
+  intros F. pose proof (anchor_bounds _ _ _ _ _ locs F) as Ha. pose proof cap_pos as Hc.
   unfold locate. fold (gen_stop s stop).
-  replace (match locs with [] => 0 | _ :: _ => start_height s locs end) with (anchor s locs)
-    by (rewrite <- (start_eq_anchor _ _ _ _ locs F); destruct locs; [first [apply start_height_nil | symmetry; apply start_height_nil]| reflexivity]).
-  cbn zeta. set (a := anchor s locs) in *.
+  replace (match locs with [] => 0 | _ :: _ => start_height s locs end) with (anchor_mc mc locs)
+    by (rewrite <- (start_eq_anchor _ _ _ _ _ locs F); destruct locs; [first [apply start_height_nil | symmetry; apply start_height_nil]| reflexivity]).
+  cbn zeta. set (a := anchor_mc mc locs) in *.
   set (sh0 := if N.eqb stop 0 then a + cap else stop_height s stop).
   destruct ((sh0 =? 0) && gen_stop s stop); [reflexivity|].
   set (sh := if sh0 =? 0 then a + cap else sh0).
   destruct (Z.leb_spec sh a) as [Hle|Hgt]; [reflexivity|]. cbn [answer].
-  rewrite (range_L_seg _ _ _ _ (a + 1) _ F ltac:(lia)). f_equal.
+  rewrite (range_L_seg _ _ _ _ _ (a + 1) _ F ltac:(lia)). f_equal.
   destruct (Z.ltb_spec cap (sh - a)); lia.
 Qed.
 
 (* C13, second half, which headers: for ALL locators and stop hashes the answer is the specification's *)
 Theorem locate_matches_spec s locs stop : Valid s ->
-  answer (locate s locs stop) = spec_locate s locs stop.
+  answer (locate s locs stop) = spec_locate_mc mc locs stop.
 Proof.
   intros HV. destruct (valid_mc s HV) as (tip & t & g & F).
-  pose proof (anchor_bounds _ _ _ _ locs F) as Ha. pose proof cap_pos as Hc.
-  rewrite (locate_seg _ _ _ _ _ stop F), (spec_locate_seg _ _ _ _ _ stop F), (stop_height_mc _ _ _ _ stop F).
-  cbn zeta. set (a := anchor s locs) in *.
+  pose proof (anchor_bounds _ _ _ _ _ locs F) as Ha. pose proof cap_pos as Hc.
+  rewrite (locate_seg _ _ _ _ _ _ stop F), (spec_locate_seg _ _ _ _ _ _ stop F), (stop_height_mc _ _ _ _ _ stop F).
+  cbn zeta. set (a := anchor_mc mc locs) in *.
   assert (Hg0: gen_stop s stop = N.eqb (id g) stop).
-  { unfold gen_stop. rewrite (by_height_L_nth _ _ _ _ F 0 ltac:(lia)). cbn [Z.to_nat]. rewrite (mf_gen _ _ _ _ F). reflexivity. }
-  assert (Hgin: In g (main_chain s)) by (apply (nth_error_In _ 0); exact (mf_gen _ _ _ _ F)).
-  destruct (find (fun r => N.eqb (id r) stop) (main_chain s)) as [x|] eqn:Hf.
+  { unfold gen_stop. rewrite (by_height_L_nth _ _ _ _ _ F 0 ltac:(lia)). cbn [Z.to_nat]. rewrite (mf_gen _ _ _ _ _ F). reflexivity. }
+  assert (Hgin: In g (mc)) by (apply (nth_error_In _ 0); exact (mf_gen _ _ _ _ _ F)).
+  destruct (find (fun r => N.eqb (id r) stop) (mc)) as [x|] eqn:Hf.
   - apply find_some in Hf. destruct Hf as [Hx Hid]. apply N.eqb_eq in Hid.
-    pose proof (mc_nth_bounds _ _ _ _ F x Hx) as Hb.
+    pose proof (mc_nth_bounds _ _ _ _ _ F x Hx) as Hb.
     assert (Hs0: stop <> 0%N).
-    { rewrite <- Hid. apply (wf_ids_nonzero s (proj1 (mf_inv _ _ _ _ F))). apply (mc_in _ _ _ _ F). exact Hx. }
+    { rewrite <- Hid. apply (wf_ids_nonzero s (proj1 (mf_inv _ _ _ _ _ F))). apply (mc_in _ _ _ _ _ F). exact Hx. }
     replace (N.eqb stop 0) with false by (symmetry; apply N.eqb_neq; exact Hs0).
     destruct (Z.eqb_spec (height x) 0) as [E0|E0].
     + (* the stop hash is the genesis block *)
-      pose proof (asc_in_nth _ _ (mf_asc _ _ _ _ F) x Hx) as Hn.
+      pose proof (asc_in_nth _ _ (mf_asc _ _ _ _ _ F) x Hx) as Hn.
       replace (Z.to_nat (height x - 0)) with Datatypes.O in Hn by lia.
-      rewrite (mf_gen _ _ _ _ F) in Hn. inversion Hn; subst x.
+      rewrite (mf_gen _ _ _ _ _ F) in Hn. inversion Hn; subst x.
       rewrite Hg0, Hid, N.eqb_refl. cbn [andb].
       replace (height g <=? a) with true by (symmetry; apply Z.leb_le; lia). reflexivity.
     + cbn [andb]. destruct (Z.leb_spec (height x) a); [reflexivity|]. f_equal. lia.
@@ -667,16 +667,16 @@ Proof. intros H. rewrite <- (firstn_skipn n l). apply in_or_app. left. exact H. 
 Lemma in_skipn {A} n (l : list A) x : In x (skipn n l) -> In x l.
 Proof. intros H. rewrite <- (firstn_skipn n l). apply in_or_app. right. exact H. Qed.
 
-Lemma seg_props s tip t g lo n : mc_facts s tip t g -> 0 <= lo ->
-  (length (seg s lo n) <= n)%nat /\ linked (seg s lo n) /\ asc_from lo (seg s lo n) /\
-  (forall r, In r (seg s lo n) -> In r s /\ st r = Longest /\ lo <= height r).
+Lemma seg_props s mc tip t g lo n : mc_facts s mc tip t g -> 0 <= lo ->
+  (length (seg mc lo n) <= n)%nat /\ linked (seg mc lo n) /\ asc_from lo (seg mc lo n) /\
+  (forall r, In r (seg mc lo n) -> In r s /\ st r = Longest /\ lo <= height r).
 Proof.
   intros F Hlo. unfold seg. split; [apply firstn_le_length|].
-  split; [apply linked_firstn, linked_skipn; exact (mf_linked _ _ _ _ F)|].
-  assert (Ha: asc_from lo (firstn n (skipn (Z.to_nat lo) (main_chain s)))).
-  { replace lo with (0 + Z.of_nat (Z.to_nat lo)) at 1 by lia. apply asc_firstn, asc_skipn. exact (mf_asc _ _ _ _ F). }
+  split; [apply linked_firstn, linked_skipn; exact (mf_linked _ _ _ _ _ F)|].
+  assert (Ha: asc_from lo (firstn n (skipn (Z.to_nat lo) (mc)))).
+  { replace lo with (0 + Z.of_nat (Z.to_nat lo)) at 1 by lia. apply asc_firstn, asc_skipn. exact (mf_asc _ _ _ _ _ F). }
   split; [exact Ha|]. intros r Hr. pose proof (asc_ge _ _ Ha r Hr).
-  apply in_firstn, in_skipn in Hr. apply (mc_in _ _ _ _ F) in Hr. destruct Hr. auto.
+  apply in_firstn, in_skipn in Hr. apply (mc_in _ _ _ _ _ F) in Hr. destruct Hr. auto.
 Qed.
 
 Lemma firstn_length_idem {A} n (l : list A) : firstn (length (firstn n l)) l = firstn n l.
@@ -700,18 +700,18 @@ Qed.
 Theorem locate_safe_thm s locs stop : Valid s ->
   let l := answer (locate s locs stop) in
   (length l <= Z.to_nat cap)%nat /\ linked l /\
-  (forall r, In r l -> In r s /\ st r = Longest /\ anchor s locs < height r) /\
-  l = seg s (anchor s locs + 1) (length l).
+  (forall r, In r l -> In r s /\ st r = Longest /\ anchor_mc mc locs < height r) /\
+  l = seg mc (anchor_mc mc locs + 1) (length l).
 Proof.
   intros HV. destruct (valid_mc s HV) as (tip & t & g & F). cbn zeta.
-  pose proof (anchor_bounds _ _ _ _ locs F) as Ha. rewrite (locate_seg _ _ _ _ _ stop F). cbn zeta.
+  pose proof (anchor_bounds _ _ _ _ _ locs F) as Ha. rewrite (locate_seg _ _ _ _ _ _ stop F). cbn zeta.
   assert (Hnil: (length (@nil row) <= Z.to_nat cap)%nat /\ linked [] /\
-                (forall r, In r [] -> In r s /\ st r = Longest /\ anchor s locs < height r) /\
-                [] = seg s (anchor s locs + 1) (length (@nil row))).
+                (forall r, In r [] -> In r s /\ st r = Longest /\ anchor_mc mc locs < height r) /\
+                [] = seg mc (anchor_mc mc locs + 1) (length (@nil row))).
   { cbn. split; [lia|]. split; [exact I|]. split; [intros r []|]. unfold seg. reflexivity. }
   match goal with |- context [if ?c then _ else _] => destruct c end; [exact Hnil|].
   match goal with |- context [if ?c then _ else _] => destruct c end; [exact Hnil|].
-  match goal with |- context [seg s ?lo ?n] => destruct (seg_props s tip t g lo n F ltac:(lia)) as (H1 & H2 & H3 & H4) end.
+  match goal with |- context [seg mc ?lo ?n] => destruct (seg_props s mc tip t g lo n F ltac:(lia)) as (H1 & H2 & H3 & H4) end.
   split; [lia|]. split; [exact H2|]. split.
   - intros r Hr. destruct (H4 r Hr) as (A & B & C). repeat split; auto. lia.
   - unfold seg. symmetry. apply firstn_length_idem.
@@ -719,38 +719,38 @@ Qed.
 
 (* ---- what the specification means (sanity of the declarative side) ---- *)
 Theorem spec_locate_meaning s locs stop : Valid s ->
-  let a := anchor s locs in let l := spec_locate s locs stop in
+  let a := anchor_mc mc locs in let l := spec_locate_mc mc locs stop in
   (* the start is the highest locator entry on the main chain, height 0 if none is *)
-  is_anchor (main_chain s) (fun r => memN (id r) locs) a /\
+  is_anchor (mc) (fun r => memN (id r) locs) a /\
   (* a contiguous run of the main chain starting immediately after it, at most cap long *)
-  l = seg s (a + 1) (length l) /\ (length l <= Z.to_nat cap)%nat /\ linked l /\
+  l = seg mc (a + 1) (length l) /\ (length l <= Z.to_nat cap)%nat /\ linked l /\
   (forall r, In r l -> In r s /\ st r = Longest) /\
   (* the stop hash *)
-  (forall x, In x (main_chain s) -> id x = stop ->
+  (forall x, In x (mc) -> id x = stop ->
      (height x <= a -> l = []) /\
      (a < height x <= a + cap -> last l x = x) /\
      (a + cap < height x -> length l = Z.to_nat cap)) /\
-  ((forall x, In x (main_chain s) -> id x <> stop) ->
-     Z.of_nat (length l) = Z.min cap (tip_height s - a)).
+  ((forall x, In x (mc) -> id x <> stop) ->
+     Z.of_nat (length l) = Z.min cap ((Z.of_nat (length mc) - 1) - a)).
 Proof.
   intros HV. destruct (valid_mc s HV) as (tip & t & g & F). cbn zeta.
-  pose proof (anchor_bounds _ _ _ _ locs F) as Ha. pose proof cap_pos as Hc. pose proof (mf_len _ _ _ _ F) as Hlen.
-  split. { unfold anchor. exact (fold_left_anchor (fun r => memN (id r) locs) (main_chain s) 0 0 (mf_asc _ _ _ _ F)). }
-  rewrite (spec_locate_seg _ _ _ _ locs stop F). cbn zeta. set (a := anchor s locs) in *.
-  assert (Hseg: forall n, let l := seg s (a + 1) n in
-            l = seg s (a + 1) (length l) /\ (length l <= n)%nat /\ linked l /\ (forall r, In r l -> In r s /\ st r = Longest) /\
+  pose proof (anchor_bounds _ _ _ _ _ locs F) as Ha. pose proof cap_pos as Hc. pose proof (mf_len _ _ _ _ _ F) as Hlen.
+  split. { unfold anchor_mc. exact (fold_left_anchor (fun r => memN (id r) locs) (mc) 0 0 (mf_asc _ _ _ _ _ F)). }
+  rewrite (spec_locate_seg _ _ _ _ _ locs stop F). cbn zeta. set (a := anchor_mc mc locs) in *.
+  assert (Hseg: forall n, let l := seg mc (a + 1) n in
+            l = seg mc (a + 1) (length l) /\ (length l <= n)%nat /\ linked l /\ (forall r, In r l -> In r s /\ st r = Longest) /\
             Z.of_nat (length l) = Z.min (Z.of_nat n) (height t - a)).
-  { intros n. cbn zeta. destruct (seg_props s tip t g (a + 1) n F ltac:(lia)) as (H1 & H2 & H3 & H4).
+  { intros n. cbn zeta. destruct (seg_props s mc tip t g (a + 1) n F ltac:(lia)) as (H1 & H2 & H3 & H4).
     split; [unfold seg; symmetry; apply firstn_length_idem|]. split; [exact H1|]. split; [exact H2|].
     split; [intros r Hr; destruct (H4 r Hr) as (A & B & _); auto|].
     unfold seg. rewrite firstn_length, skipn_length. lia. }
-  assert (Hnil: [] = seg s (a + 1) (@length row [])) by reflexivity.
-  destruct (find (fun r => N.eqb (id r) stop) (main_chain s)) as [x|] eqn:Hf.
+  assert (Hnil: [] = seg mc (a + 1) (@length row [])) by reflexivity.
+  destruct (find (fun r => N.eqb (id r) stop) (mc)) as [x|] eqn:Hf.
   - apply find_some in Hf as Hf'. destruct Hf' as [Hx Hid]. apply N.eqb_eq in Hid.
-    pose proof (mc_nth_bounds _ _ _ _ F x Hx) as Hb.
-    assert (Hux: forall y, In y (main_chain s) -> id y = stop -> y = x).
-    { intros y Hy Ey. apply (mc_in _ _ _ _ F) in Hy, Hx. destruct Hy as [Hy _], Hx as [Hx _].
-      apply (nodup_ids_in s (wf_nodup s (proj1 (mf_inv _ _ _ _ F)))); auto. congruence. }
+    pose proof (mc_nth_bounds _ _ _ _ _ F x Hx) as Hb.
+    assert (Hux: forall y, In y (mc) -> id y = stop -> y = x).
+    { intros y Hy Ey. apply (mc_in _ _ _ _ _ F) in Hy, Hx. destruct Hy as [Hy _], Hx as [Hx _].
+      apply (nodup_ids_in s (wf_nodup s (proj1 (mf_inv _ _ _ _ _ F)))); auto. congruence. }
     destruct (Z.leb_spec (height x) a) as [Hle|Hgt].
     + split; [exact Hnil|]. split; [cbn; lia|]. split; [exact I|]. split; [intros r []|]. split.
       * intros y Hy Ey. rewrite (Hux y Hy Ey). split; [reflexivity|]. split; [lia|]. intros; lia.
@@ -761,7 +761,7 @@ Proof.
         -- intros Hr. replace (Nat.min (Z.to_nat cap) (Z.to_nat (height x - a))) with (S (Z.to_nat (height x - a - 1))) by lia.
            unfold seg. apply last_firstn_skipn.
            replace (Z.to_nat (a + 1) + Z.to_nat (height x - a - 1))%nat with (Z.to_nat (height x - 0)) by lia.
-           apply (asc_in_nth _ _ (mf_asc _ _ _ _ F) x). exact Hx.
+           apply (asc_in_nth _ _ (mf_asc _ _ _ _ _ F) x). exact Hx.
         -- intros Hr. lia.
       * intros Hno. exfalso. exact (Hno x Hx Hid).
   - destruct (Hseg (Z.to_nat cap)) as (S1 & S2 & S3 & S4 & S5).
@@ -880,11 +880,11 @@ Theorem locator_length_thm s t : Valid s -> tipB s = Some t -> height t < 2 ^ 31
   exists l, latest_locator s = Some l /\ Z.of_nat (length l) = max_entries (height t) /\ max_entries (height t) <= 43.
 Proof.
   intros HV Ht Hlt. destruct (valid_mc s HV) as (tip & t' & g & F).
-  rewrite (mf_tipB _ _ _ _ F) in Ht. inversion Ht; subst t'.
-  pose proof (mc_height_pos _ _ _ _ F) as Hp. pose proof (mf_len _ _ _ _ F) as Hlen.
-  exists (spec_locator s). split; [exact (latest_locator_spec s HV)|].
-  assert (Hth: tip_height s = height t) by (unfold tip_height; lia).
-  assert (E: Z.of_nat (length (spec_locator s)) = max_entries (height t)).
+  rewrite (mf_tipB _ _ _ _ _ F) in Ht. inversion Ht; subst t'.
+  pose proof (mc_height_pos _ _ _ _ _ F) as Hp. pose proof (mf_len _ _ _ _ _ F) as Hlen.
+  exists (spec_locator_mc mc). split; [exact (latest_locator_spec s HV)|].
+  assert (Hth: (Z.of_nat (length mc) - 1) = height t) by (unfold tip_height; lia).
+  assert (E: Z.of_nat (length (spec_locator_mc mc)) = max_entries (height t)).
   { unfold spec_locator. rewrite map_length, Hth. apply max_entries_exact; lia. }
   split; [exact E|]. unfold max_entries. destruct (Z.leb_spec (height t) 12).
   - rewrite (Z.mod_small (height t) 256) by lia. rewrite Z.mod_small by lia. lia.
